@@ -291,6 +291,8 @@ theorem runBudget_spec (cfg : Cfg n) (R R' : AMat Int n) (itr eff : ℕ) (ds res
   have h0 := mkState_inv cfg.und cfg.src R hd hs hsrc
   unfold runBudget at hrun
   simp only [bind, Except.bind] at hrun
+  split at hrun
+  · cases hrun      -- the guard raised: not an `.ok` run
   have fin : ∀ s : St n (edgeCells cfg.src R).toArray.size, RwInv cfg.und R.toFun s → R' = s.R → eff = s.eff →
       (∀ r, rowCnt R'.toFun r = rowCnt R.toFun r) ∧ (∀ c, colCnt R'.toFun c = colCnt R.toFun c) ∧
       cellValues R'.toFun = cellValues R.toFun ∧ (∀ v, R'.toFun v v = R.toFun v v) ∧
